@@ -276,6 +276,10 @@ var scripted = []string{
 	"start;status;submit 0;submit 1;add 9 0;remove 9;stop;stop;start;start;status",
 	"stop;restart;status;config;bootstrap;badbootstrap;submit 2",
 	"bootstrap;bootstrap;start;restart;sleep 150;submit 0;submit 1;submit 2;submit 7;status",
+	// Bootstrap after Start (and after Stop): an error, never a panic or a later crash
+	"start;stop;bootstrap;status;config",
+	"start;bootstrap;sleep 300;status;submit 0;sleep 300;status;config",
+	"start;sleep 50;bootstrap;restart;sleep 300;status;submit 0;stop;bootstrap;status",
 	// the network holds the node's AppendEntries requests back (no answer, no error): every call must still return
 	"bootstrap;start;sleep 200;status;hold;sleep 60;submit 0;stop;status;release;sleep 50;status",
 	"bootstrap;start;sleep 200;hold;sleep 60;add %d 0;stop;start;sleep 100;status;release;sleep 100;submit 0;status",
